@@ -46,7 +46,7 @@ def c02(res, tier, a):
 
 
 def c03(res, tier, a):
-    comps = _components(a, ["kernels"])
+    comps = _components(a, ["kernels", "modules"])
     with Scratch(slot()) as sc:
         ws.inject(sc)
         drv = ws.Driver(ws.build_driver(sc))
@@ -55,6 +55,9 @@ def c03(res, tier, a):
             k = kernels.Kernels(sc, drv, res, tier, props=("C03",))
             k.load(ws)
             cov.update(k.run_all())
+        if "modules" in comps:
+            from checks import et
+            cov.update(et.run_module_validity(res, tier, sc, drv))
         res.coverage.update(cov)
         res.coverage["states"] = max(1, sum(e["paths"] for e in cov.get("kernels_encoded", [])))
         res.coverage["transitions"] = max(1, cov.get("kernel_obligations", 0) + len(cov.get("kernels_encoded", [])))
